@@ -110,13 +110,24 @@ def module_strategy():
             if k == 'assign':
                 return [ind + '%s = 1' % n]
             if k == 'ann':
-                return [ind + '%s: int = 1' % n]
+                # (x): T = v is an ordinary binding too (the parser merely clears AnnAssign.simple)
+                return [ind + draw(st.sampled_from(['%s: int = 1', '%s: int = 1', '(%s): int = 1', '((%s)): "T" = None'])) % n]
             if k == 'chain':
                 return [ind + '%s = %s = 2' % (n, name())]
             if k == 'tuple':
                 return [ind + '%s, (%s, %s) = 1, (2, 3)' % (n, name(), name())]
             if k == 'starred':
                 return [ind + '%s, *%s = [1, 2]' % (n, name())]
+            if k in ('for', 'with', 'comp') and draw(st.integers(0, 3)) == 0:
+                # a target that mixes attribute / subscript elements (which bind nothing) with plain names, in any order and depth
+                r = draw(st.sampled_from(READ))
+                tgt = draw(st.sampled_from(['%s.k, %s' % (r, n), '%s[0], %s' % (r, n), '%s, %s.k' % (n, r), '(%s.a, (%s[1], %s)), %s' % (r, r, n, name()),
+                                            '%s, *%s.rest' % (n, r), '[%s.a, %s]' % (r, n)]))
+                if k == 'for':
+                    return [ind + 'for %s in []:' % tgt, ind + '    pass']
+                if k == 'with':
+                    return [ind + 'with open("f") as (%s):' % tgt, ind + '    pass']
+                return [ind + '[0 for %s in []]' % tgt]
             if k == 'for':
                 return [ind + 'for %s in []:' % (n if draw(st.booleans()) else '%s, %s' % (n, name())), ind + '    pass']
             if k == 'with':
